@@ -29,6 +29,10 @@ META = {
 CARRIERS = ("str", "bytes", "bytearray", "memoryview", "memoryview_rw")
 TEXTS = ["1", "-2", "1.5", "true", "null", "None", "[1]", "[1, 2]", '{"a": 1}', "{'a': 1}", "(1, 2)", "1,2", "abc", "", " 1 ", "é", "a\x00b",
          "2020-01-01", "2020-01-01T00:00:00+00:00", "PT1S", "[1", '"q"']
+# JSON text that is also a Python literal with another meaning, and literals that are not JSON
+JSONISH = ['"\\/"', '["\\ud83d\\ude00"]', '{"url":"http:\\/\\/x"}', '"\\u00e9"', "123456789012345678901234567890", "1e400",
+           "-0", "1E2", '"\\n"', "[1.0, 2]", '{"a": [1, {"b": null}]}', "1_000", "0x10", "[1,]", "(1)", "'a' 'b'", "b'x'", "{1, 2}",
+           '"\\x41"', "1.", "01", "+1", "NaN", "Infinity", "1e5", "[true]", "[None]"]
 ALPHA = ["[", "]", "{", "}", '"', ",", ":", "0", "1", "9", "a", " ", "é", "\x00"]
 
 
@@ -170,6 +174,40 @@ def make_load(length, part, nparts, timeout):
     return Cond(f"load/len{length}/part{part}of{nparts}", [(f"c{i}", int) for i in range(length + 1)], body, mode="E3", timeout=timeout)
 
 
+def make_load_texts(timeout):
+    """Escapes, big numbers and literal-only spellings (not expressible over the 14-character alphabet)."""
+
+    def body(c0: int, c1: int):
+        from typelib import serdes
+
+        ch = Chooser((c0, c1))
+        with NoTracing():
+            s = JSONISH[ch.pick(len(JSONISH))]
+            carrier = CARRIERS[ch.pick(len(CARRIERS))]
+            fn = getattr(serdes.strload, "__wrapped__", serdes.strload)
+            ok, r = attempt(serdes.load, carry(s, carrier))
+            reached()
+            if not ok:
+                return ("load_raised", carrier, _d(s, r))
+            try:
+                want = ("json", json.loads(s))
+            except ValueError:
+                want = None
+            if want is not None:
+                import math
+
+                w = want[1]
+                if isinstance(w, float) and (math.isinf(w) or math.isnan(w)):
+                    return None  # non-finite numbers: decoders legitimately differ
+                if isinstance(w, int) and abs(w) >= 2 ** 63:
+                    return None  # beyond 64 bits the configured decoder (orjson) answers with a float: outside the domain
+                if canon(r) != canon(w):
+                    return ("json_text_not_decoded_as_json", carrier, _d(s, r, w))
+        return None
+
+    return Cond("load/texts", [("c0", int), ("c1", int)], body, mode="E3", timeout=timeout)
+
+
 def make_load_nontext(timeout):
     def body(i: int, b: bool, n: int):
         from typelib import serdes
@@ -238,5 +276,9 @@ def conditions(tier, seed):
         out.append(make_load(3, seed % 3, 3, to))
     else:
         out += [make_load(3, k, 3, to) for k in range(3)]
-    out += [make_load_nontext(to), make_decode(to), make_decode_str(to)]
+    out += [make_load_texts(to), make_load_nontext(to), make_decode(to), make_decode_str(to)]
+    from vlib.fixtures import models as M
+    from vlib.shapes import Picked
+
+    out.append(make_carriers(Picked(M.Slug, [M.Slug("abc"), M.Slug("")], name="Slug(str)"), to))
     return out
